@@ -1,7 +1,8 @@
 """An independent character-level terminal emulator (infinite height, deferred auto-wrap) for the oracles of C15/C16/C19."""
 import re
 
-_TOK = re.compile(r"\x1b\[(\d*)([A-Za-z])|\x1b\[[0-9;]*m|.", re.S)
+# an SGR sequence (ESC [ params m, also with one parameter) is tried first: it occupies no cell (Base/Term.v: Sgr)
+_TOK = re.compile(r"\x1b\[[0-9;]*m|\x1b\[(\d*)([A-Za-z])|.", re.S)
 
 
 class Term(object):
@@ -40,7 +41,7 @@ class Term(object):
                 self.c = 0
             elif t.startswith("\x1b["):
                 if m.group(2) is None:
-                    continue  # SGR
+                    continue  # SGR: the look of the next cells only
                 n, k = m.group(1), m.group(2)
                 if k == "A":
                     self.r = max(0, self.r - int(n or "1"))
@@ -66,7 +67,8 @@ class Term(object):
 
 
 def tokens(data):
-    """bytes -> the emit tokens of Base/Term.v: [0,c] char, [1] LF, [2] CR, [3,n] up, [4] erase below, [5] erase line"""
+    """bytes -> the emit tokens of Base/Term.v: [0,c] char, [1] LF, [2] CR, [3,n] up, [4] erase below, [5] erase line,
+    [9,seq] an SGR sequence (all its characters)"""
     out = []
     for m in _TOK.finditer(data):
         t = m.group(0)
